@@ -267,10 +267,13 @@ def execute(node, step, check_rows=False, check_unrelated=True):
         else:
             tr.status = 'sql-error'
         return tr
-    ok, diffs = R.sig_equal(res.sig, R.load_sig(ent['sig']))
+    ok, diffs = R.sig_equal(res.sig, R.load_sig(ent['sig']),
+                            ignore_upgrade_method=True)
     if not ok:
         tr.status = 'gate'
         tr.gate_diff = diffs
+        tr.fk_violations = O.fk_check('default')
+        tr.schema = O.schema_dump('default')
         return tr
     tr.status = 'ok'
     tr.schema = O.schema_dump('default')
